@@ -103,5 +103,18 @@ History of misses (each led to an extension, after which the change is caught):
   graceful stop, compared between the default and the feature builds (c18w); S_C19e (a bare `Result` path without generic
   arguments is no longer recognised) -> `bare_result` spelling in MacroTable.tla; S_C20e (whole seconds converted with the
   wrong factor) -> a handler outcome that holds its thread for 1.1 s (`veryslow`).
+* Round 8 (6 changes: C03 C07 C09 C11 C15 C17; 64 in all). Caught at once: S_C03f (the orderly exit bypasses MailboxGuard:
+  teardown stress, 1 stranded ask in ~900 iterations), S_C09f (spawn() caches the default capacity at its first call:
+  DefaultCap.tla sequence spawn, set, spawn), S_C11f (the failure exits no longer close the mailbox: "send to an ended actor
+  did not fail"), S_C15f (has_path answers "cycle" when the walk uses up the whole graph without reaching the asker).
+  Extensions: S_C07f (a graceful on_stop raced against the kill channel, whose closing - last reference dropped while on_stop
+  is pending - is mistaken for a kill; harmless until the stop marker stops carrying an ActorRef) was reported as model drift
+  only -> (1) the replay harness services pending wake-ups with a *spurious poll* of the actor task before it hands a
+  directive to a hook parked in on_start / a handler / on_stop (the model has no step there because correct code cannot move;
+  the mutated select! can), (2) C07 rules "on_stop(killed=true) although no kill() was ever called" and "a second on_stop
+  was entered although no kill or crash intervened"; S_C17f (the timed blocking_ask restarts its deadline when the message
+  is accepted) -> Blocking.tla mode `thaw` (no free slot at first, one is freed at Th < T, no reply ever: one deadline for
+  send and reply) with its cases executed on real threads under a 2 s timeout so that a second deadline (1.8 T) lies beyond
+  T + slack.
 """)
 print(len(rows), "seeds")
